@@ -22,6 +22,7 @@ import ZlModel.Der
 import ZlModel.JsonString
 import ZlModel.RegSeq
 import ZlModel.LintLogic
+import ZlModel.Crl
 import ZlModel.Generated.Bodies
 open Zl Zl.Proto
 
@@ -546,8 +547,29 @@ def opBodies (fields0 : List String) : String :=
     if upNames.isEmpty then rules else rules ++ ";" ++ ",".intercalate ups
   | _ => "bad-op"
 
+/-! ### CRL rule bodies (hand-written models of ZlModel/Crl.lean) -/
+
+def opCrl (fields : List String) : String :=
+  match fields with
+  | [nz, extsS, entriesS] =>
+    let exts := if extsS == "." then [] else (extsS.splitOn ",").map parseOid
+    let entries : List Crl.Entry := if entriesS == "." then [] else (entriesS.splitOn ";").filterMap (fun e => match e.splitOn "|" with
+      | [ser, rsn, xs] => some {
+          serial := ser.toInt?.getD 0
+          reason := if rsn == "-" then none else rsn.toInt?
+          exts := if xs == "." then [] else (xs.splitOn ",").filterMap (fun p => match p.splitOn "=" with
+            | [o, c] => some (parseOid o, c == "1")
+            | _ => none) }
+      | _ => none)
+    let v : Crl.View := { nextUpdateZero := nz == "1", exts := exts, entries := entries }
+    ",".intercalate ((Crl.verdicts v).map (fun o => match o with
+      | .notApplicable => "N"
+      | .result s => toString s))
+  | _ => "bad-op"
+
 def step (line : String) : String :=
   match line.splitOn "\t" with
+  | "crl" :: rest => opCrl rest
   | "fw" :: rest => opFw rest
   | "filter" :: rest => opFilter rest
   | "register" :: rest => opRegister rest
